@@ -21,9 +21,10 @@ Fixpoint list_eqb {A} (e : A -> A -> bool) (l m : list A) : bool :=
 Section Corr.
 Variable v : variant.
 Variable users : list string.
+Variable t0 : Z.          (* unix time of the first block of every history *)
 
 Definition init_state (init : list Z) : state :=
-  mkState 0 [] [] (map (fun p => (fst p, UKEX, snd p)) (combine users init)).
+  mkState t0 [] [] (map (fun p => (fst p, UKEX, snd p)) (combine users init)).
 
 Definition dobs_eqb (a b : string * Z * Z) : bool :=
   (String.eqb (fst (fst a)) (fst (fst b)) && (snd (fst a) =? snd (fst b)) && (snd a =? snd b))%bool.
@@ -44,7 +45,7 @@ Fixpoint first_bad (c : config) (st : state) (steps : list (op * obs)) (n : nat)
   | [] => None
   | (o, ob) :: r =>
       let st' := apply v c st o in
-      if (Bool.eqb (is_ok (step v c st o)) (o_ok ob) && snap_ok st' ob)%bool then first_bad c st' r (S n) else Some n
+      if (Bool.eqb (is_ok (step v c st o)) (o_ok ob) && snap_ok st' ob)%bool then first_bad (cfg_after c o) st' r (S n) else Some n
   end.
 Definition case_first_bad (cs : c20_case) : option nat :=
   match cs with CHist c init steps => first_bad c (init_state init) steps 0 end.
@@ -81,7 +82,8 @@ Record ghost := mkGhost {
   g_now : Z;
   g_ctime : list (string * Z);        (* creation time of every accepted proposal (latest incarnation first) *)
   g_prev : obs;
-  g_net : list (string * Z) }.        (* per user: ukex received minus paid over the accepted LP messages *)
+  g_net : list (string * Z);          (* per user: ukex received minus paid over the accepted LP messages *)
+  g_mx : Z }.                         (* the largest maximum dApp bond in force so far *)
 
 Definition ctime_of (g : ghost) (n : string) : Z :=
   match find (fun e => String.eqb (fst e) n) (g_ctime g) with Some e => snd e | None => 0 end.
@@ -105,11 +107,12 @@ Definition frame_ok (prev o : obs) (i : nat) (n u : string) : bool :=
 
 (* clauses that must hold in every observed state:
    total-sum: a bootstrapping dApp's total bond is the sum of its user bonds;
-   max:       ... and does not exceed the maximum dApp bond;
+   max:       ... and does not exceed the maximum dApp bond ([mx]: the largest maximum in force so far in the
+              history; an accepted create / bond is also compared with the maximum in force at that moment);
    held:      the recorded bonds of all dApps are held by the module account *)
-Definition state_clauses (c : config) (o : obs) : list string :=
+Definition state_clauses (mx : Z) (o : obs) : list string :=
   cl "total-sum" (forallb (fun e => negb (snd (fst e) =? 0) || (snd e =? zsum (map snd (obonds_of o (fst (fst e)))))) (o_dapps o))
-  ++ cl "max" (forallb (fun e => negb (snd (fst e) =? 0) || (snd e <=? max_thr c)) (o_dapps o))
+  ++ cl "max" (forallb (fun e => negb (snd (fst e) =? 0) || (snd e <=? mx)) (o_dapps o))
   ++ cl "held" (zsum (map snd (o_dapps o)) <=? o_mod o).
 
 (* user message (create / bond / reclaim) of user u on dApp n *)
@@ -203,6 +206,34 @@ Definition keeper_clauses (c : config) (prev ob : obs) (o : op) : list string :=
   | _ => []
   end.
 
+(* messages that must not touch bonds, user ukex (except the sender's own payment) or the module's ukex *)
+Definition same_money (a b : obs) (except : option nat) : bool :=
+  (list_eqb (fun x y => (String.eqb (fst (fst x)) (fst (fst y)) && String.eqb (snd (fst x)) (snd (fst y)) && (snd x =? snd y))%bool)
+            (o_bonds a) (o_bonds b)
+   && (o_mod a =? o_mod b)
+   && forallb (fun j => match except with Some i => Nat.eqb j i | None => false end || (obal a j =? obal b j)) (seq 0 (List.length users)))%bool.
+Definition other_clauses (prev ob : obs) (o : op) : list string :=
+  if negb (o_ok ob) then cl "reject" (same_state prev ob) else
+  match o with
+  | OSetCfg _ => cl "frame" (same_state prev ob)
+  | OBurnTx u den amt _ =>
+      match uidx u with None => ["user"%string] | Some i =>
+        cl "frame" (same_money prev ob (Some i) && list_eqb dobs_eqb (o_dapps prev) (o_dapps ob))
+        (* the sender loses exactly what is burnt, of that denomination *)
+        ++ cl "burn" (if String.eqb den UKEX then obal prev i - obal ob i =? amt
+                      else (obal prev i =? obal ob i) && (lp_user (olp prev den) i - lp_user (olp ob den) i =? amt)
+                           && (lp_sup (olp prev den) - lp_sup (olp ob den) =? amt)) end
+  | OMintFt u _ =>
+      match uidx u with None => ["user"%string] | Some i =>
+        cl "frame" (same_money prev ob (Some i) && list_eqb dobs_eqb (o_dapps prev) (o_dapps ob))
+        ++ cl "burn" (0 <=? obal prev i - obal ob i) end
+  | OJoinVerifier _ _ _ => cl "frame" (same_state prev ob)
+  (* a passed upsert proposal changes the description of a dApp, never bonds or balances; what it may do to
+     TotalBond is judged by total-sum / held / pool-native *)
+  | OUpsert _ _ _ _ _ _ _ => cl "frame" (same_money prev ob None)
+  | _ => []
+  end.
+
 Fixpoint check_steps (c : config) (g : ghost) (steps : list (op * obs)) (n : Z) : list string :=
   match steps with
   | [] => []
@@ -210,9 +241,11 @@ Fixpoint check_steps (c : config) (g : ghost) (steps : list (op * obs)) (n : Z) 
       let t := match o with OTick dt => if o_ok ob then g_now g + dt else g_now g | _ => g_now g end in
       let msg := is_msg_op o in
       let here :=
-        if negb msg then keeper_clauses c (g_prev g) ob o ++ state_clauses c ob ++ flow_clauses (g_prev g) ob else
+        if negb msg then keeper_clauses c (g_prev g) ob o ++ state_clauses (g_mx g) ob ++ flow_clauses (g_prev g) ob else
         (match o with
-         | OCreate u _ _ n _ _ | OBond u n _ _ | OReclaim u n _ _ => user_clauses g ob u n
+         | OCreate u _ _ n _ _ | OBond u n _ _ =>
+             user_clauses g ob u n ++ (if o_ok ob then cl "max" (otot ob n <=? max_thr c) else [])
+         | OReclaim u n _ _ => user_clauses g ob u n
          | OTick _ => if o_ok ob then tick_clauses c g ob t else cl "reject" (same_state (g_prev g) ob)
          | OLpMsg _ u _ _ _ _ =>
              if o_ok ob then
@@ -221,7 +254,7 @@ Fixpoint check_steps (c : config) (g : ghost) (steps : list (op * obs)) (n : Z) 
                | Some i => cl "nofree" (net_of g u + (obal ob i - obal (g_prev g) i) <=? 0)
                end
              else cl "reject" (same_state (g_prev g) ob)
-         | _ => [] end) ++ state_clauses c ob ++ flow_clauses (g_prev g) ob in
+         | _ => other_clauses (g_prev g) ob o end) ++ state_clauses (g_mx g) ob ++ flow_clauses (g_prev g) ob in
       match here with
       | [] =>
           let ct := match o with OCreate _ _ _ nm _ _ => if o_ok ob then (nm, g_now g) :: g_ctime g else g_ctime g | _ => g_ctime g end in
@@ -232,13 +265,14 @@ Fixpoint check_steps (c : config) (g : ghost) (steps : list (op * obs)) (n : Z) 
                                         | None => g_net g end
                         else g_net g
                     | _ => g_net g end in
-          check_steps c (mkGhost t ct ob nt) r (n + 1)
+          let c' := cfg_after c o in
+          check_steps c' (mkGhost t ct ob nt (Z.max (g_mx g) (max_thr c'))) r (n + 1)
       | _ => map (fun s => (s ++ "@" ++ z_str n)%string) here
       end
   end.
 
 Definition case_clauses (cs : c20_case) : list string :=
-  match cs with CHist c init steps => check_steps c (mkGhost 0 [] (empty_obs init) []) steps 0 end.
+  match cs with CHist c init steps => check_steps c (mkGhost 0 [] (empty_obs init) [] (max_thr c)) steps 0 end.
 
 Fixpoint violations_from (n : nat) (cs : list c20_case) : list (nat * list string) :=
   match cs with
